@@ -1,3 +1,5 @@
+\* for the evaluation-only modules TlvModelVec (env VEC_OUT, VEC_F; add CONSTANTS K Cap EditK),
+\* TlvModelJudge and TlvModelC07Judge (env JUDGE_IN = ndjson file)
 INIT Init
 NEXT Next
 CHECK_DEADLOCK FALSE
